@@ -6,6 +6,13 @@
   to the bundle `a : KinArgs K` of its array arguments; `Lemmas/C01.lean`).  MuJoCo's `mj_kinematics`,
   `mj_local2Global`, `mj_comPos` are transcribed in `Spec/Kinematics.lean`.
 
+  Contents: 1 `kinematics_body_step_structural`, `kinematics_body_step_eq_spec`, `kinematics_body_step_mocap`,
+  `kinematics_step_hinge/_slide/_ball/_free`; 2 `kinematics_branch_closed_form`, `kinematics_branch_eq_seq`,
+  `kinematics_branch_body_writes_eq_seq`, `shared_ancestors_same_value(_joints)`, `world_pose_not_written`;
+  3 `xquat_unit`, `compute_body_matrices_spec`, `xmat_proper_rotation`; 4 `geom_site_local_to_global_spec` (+ write
+  lists, `inertial_frames_spec`, `static_geom_not_written`); 5 `subtree_com_*_writes`, `subtree_div_eq_spec`,
+  `subtree_div_massless`, `subtree_com_level_eq_seq`, `subtree_com_acc_launch_effect`; 6 `cinert_cdof_spec`.
+
   Structure of the kinematics result:
     (A) for EVERY scalar type K and ALL inputs, the kernel's write list is given in closed form by
         `kinBodyW` / `kinChainW` (the kernel's own recursion: `kinematics_body_step_structural`,
@@ -15,7 +22,6 @@
         where the two codes differ on degenerate input; see `Props/C01Witness.lean`.
 -/
 import MjwVerif.Lemmas.C01Real
-import MjwVerif.Lemmas.C16
 import MjwVerif.Lemmas.C01Tree
 
 set_option linter.unusedVariables false
@@ -44,69 +50,111 @@ theorem kinematics_body_step_structural {K : Type} [Scalar K] (a : KinArgs K) (w
     `parent = none`: the parent is the world and the thread reads the stored world pose (0, identity).
     `BodyOK`: body_quat / mocap_quat unit, HINGE axes unit, BALL / FREE quaternions in qpos regular.
     All joint types and any number of joints per body are covered (`jointsOf` is the body's joint range). -/
-theorem kinematics_body_step_eq_spec (a : KinArgs ℝ) (w i : Int) (ws : List (Write ℝ)) (parent : Option (Pose ℝ))
+theorem kinematics_body_step_eq_spec (a : KinArgs ℝ) (w br i : Int) (ws : List (Write ℝ)) (parent : Option (Pose ℝ))
     (hpar : parentOf a w ws (a.body_branches i) = parentW parent)
     (hP : ∀ P, parent = some P → nrm2 P.quat = 1)
     (hb : BodyOK (bpAt a w (a.body_branches i)) (jointsOf a w (a.body_branches i)) (a.qpos_in w)) :
-    kin a w 0 = forRange (a.body_branch_start 0) (a.body_branch_start (0 + 1)) [] (bodyStepG a w)
+    kin a w br = forRange (a.body_branch_start br) (a.body_branch_start (br + 1)) [] (bodyStepG a w)
     ∧ bodyStepG a w i ws
       = ws ++ bodyWrites w (a.body_branches i) (a.body_jntadr (a.body_branches i)) (isFree a (a.body_branches i))
           (kinBody parent (bpAt a w (a.body_branches i)) (jointsOf a w (a.body_branches i)) (a.qpos_in w)
             (a.qpos0 (Int.tmod w a.qpos0_shape0))) := by
-  refine ⟨kinematics_branch_unfold a w 0, ?_⟩
+  refine ⟨kinematics_branch_unfold a w br, ?_⟩
   rw [bodyStepG_eq, bodyOutW, hpar, kinBodyW_eq_spec parent _ _ _ _ hP hb]
 
-/-! ### what `Spec.kinBody` is, per joint type (single-joint bodies; closed forms, any scalar type) -/
+/-- (1, mocap) a mocap body — child of the world, no joints — whose `mocap_quat` the user set to a NON-unit (but
+    regular: not ≈ 0) quaternion is also written as MuJoCo computes it (MuJoCo normalises `mocap_quat` before use,
+    mujoco_warp only at the end) -/
+theorem kinematics_body_step_mocap (a : KinArgs ℝ) (w i : Int) (ws : List (Write ℝ)) (mp : V3 ℝ) (mq : Q ℝ)
+    (hpar : parentOf a w ws (a.body_branches i) = some worldPose)
+    (hm : (bpAt a w (a.body_branches i)).mocap = some (mp, mq)) (hr : Regular mq)
+    (hj : jointsOf a w (a.body_branches i) = []) (br : Int) :
+    KernelLoop a w br (bodyStepG a w)
+    ∧ bodyStepG a w i ws
+      = ws ++ bodyWrites w (a.body_branches i) (a.body_jntadr (a.body_branches i)) (isFree a (a.body_branches i))
+          (kinBody none (bpAt a w (a.body_branches i)) [] (a.qpos_in w) (a.qpos0 (Int.tmod w a.qpos0_shape0))) := by
+  refine ⟨kernelLoop a w br, ?_⟩
+  rw [bodyStepG_eq, bodyOutW, hpar, hj, mocap_body_eq_spec _ mp mq hm hr]
 
-section closed_forms
-variable {K : Type} [Scalar K]
+/-! ### (1) per joint type: the four writes of a single-joint body, in program order
 
-/-- FREE: position and (twice normalised) quaternion straight from qpos; anchor = position, axis = jnt_axis -/
-theorem kinBody_free (parent : Option (Pose K)) (bp : BodyParams K) (j : Joint K) (qpos qpos0 : Int → K)
-    (h : j.type = 0) :
-    kinBody parent bp [j] qpos qpos0
-      = ⟨⟨⟨qpos j.qadr, qpos (j.qadr + 1), qpos (j.qadr + 2)⟩, normalize4 (normalize4 (qposQuat qpos (j.qadr + 3)))⟩,
-         [(⟨qpos j.qadr, qpos (j.qadr + 1), qpos (j.qadr + 2)⟩, j.axis)]⟩ := by
-  simp [kinBody, freeBody, jFREE, h]
+  `KernelLoop a w br f` says `kin a w br = forRange start end [] f` (`Lemmas/C01.lean`); `F` is MuJoCo's body frame
+  before joints (`Spec.bodyFrame`: parent pose ∘ body_pos/body_quat or the mocap pose).  Hypotheses as in
+  `kinematics_body_step_eq_spec`.  The Spec closed forms used are `kinBody_hinge/_slide/_ball/_free`
+  (`Lemmas/C01Real.lean`); bodies with several joints fold `Spec.jointApply` over the joint range (`kinBody_joints`). -/
 
-/-- SLIDE: translate along the rotated axis by `qpos − qpos0`; orientation = normalised frame orientation -/
-theorem kinBody_slide (parent : Option (Pose K)) (bp : BodyParams K) (j : Joint K) (qpos qpos0 : Int → K)
-    (h : j.type = 2) :
-    kinBody parent bp [j] qpos qpos0
-      = (let F := bodyFrame parent bp
-         let xaxis := rotVecQuat j.axis F.quat
-         ⟨⟨V3.add F.pos (V3.muls xaxis (qpos j.qadr - qpos0 j.qadr)), normalize4 F.quat⟩,
-          [(V3.add (rotVecQuat j.pos F.quat) F.pos, xaxis)]⟩) := by
-  simp [kinBody, regularBody, jointsFold, jointApply, jFREE, jSLIDE, h]
+section per_joint
+variable (a : KinArgs ℝ) (w br i : Int) (ws : List (Write ℝ)) (parent : Option (Pose ℝ))
+  (hpar : parentOf a w ws (a.body_branches i) = parentW parent)
+  (hP : ∀ P, parent = some P → nrm2 P.quat = 1)
+  (hb : BodyOK (bpAt a w (a.body_branches i)) (jointsOf a w (a.body_branches i)) (a.qpos_in w))
+  (j : Joint ℝ) (hj : jointsOf a w (a.body_branches i) = [j])
 
-/-- HINGE: rotate by `qpos − qpos0` about the axis through the anchor -/
-theorem kinBody_hinge (parent : Option (Pose K)) (bp : BodyParams K) (j : Joint K) (qpos qpos0 : Int → K)
-    (h : j.type = 3) :
-    kinBody parent bp [j] qpos qpos0
-      = (let F := bodyFrame parent bp
-         let xanchor := V3.add (rotVecQuat j.pos F.quat) F.pos
-         let q := mulQuat F.quat (axisAngle2Quat j.axis (qpos j.qadr - qpos0 j.qadr))
-         ⟨⟨V3.sub xanchor (rotVecQuat j.pos q), normalize4 q⟩, [(xanchor, rotVecQuat j.axis F.quat)]⟩) := by
-  simp [kinBody, regularBody, jointsFold, jointApply, jFREE, jSLIDE, jBALL, jHINGE, h]
+include hpar hP hb hj in
+/-- HINGE: rotate by `qpos − qpos0` about the joint axis through the anchor -/
+theorem kinematics_step_hinge (ht : j.type = 3) :
+    KernelLoop a w br (bodyStepG a w)
+    ∧ bodyStepG a w i ws = ws ++
+      (let F := bodyFrame parent (bpAt a w (a.body_branches i))
+       let xanchor := V3.add (rotVecQuat j.pos F.quat) F.pos
+       let q := mulQuat F.quat (axisAngle2Quat j.axis (a.qpos_in w j.qadr - a.qpos0 (Int.tmod w a.qpos0_shape0) j.qadr))
+       [(Write.mk "xanchor_out" [w, a.body_jntadr (a.body_branches i)] (WVal.v (V3.toList xanchor)) WKind.set : Write ℝ),
+        (Write.mk "xaxis_out" [w, a.body_jntadr (a.body_branches i)] (WVal.v (V3.toList (rotVecQuat j.axis F.quat))) WKind.set : Write ℝ),
+        (Write.mk "xpos_out" [w, a.body_branches i] (WVal.v (V3.toList (V3.sub xanchor (rotVecQuat j.pos q)))) WKind.set : Write ℝ),
+        (Write.mk "xquat_out" [w, a.body_branches i] (WVal.v (Q.toList (normalize4 q))) WKind.set : Write ℝ)]) := by
+  refine ⟨kernelLoop a w br, ?_⟩
+  rw [(kinematics_body_step_eq_spec a w br i ws parent hpar hP hb).2, isFree_single a w _ j hj, hj, kinBody_hinge _ _ _ _ _ ht]
+  simp [bodyWrites, jntWrites, jntWrite, poseWrites, ht]
 
+include hpar hP hb hj in
+/-- SLIDE: translate along the rotated joint axis by `qpos − qpos0` -/
+theorem kinematics_step_slide (ht : j.type = 2) :
+    KernelLoop a w br (bodyStepG a w)
+    ∧ bodyStepG a w i ws = ws ++
+      (let F := bodyFrame parent (bpAt a w (a.body_branches i))
+       let xaxis := rotVecQuat j.axis F.quat
+       [(Write.mk "xanchor_out" [w, a.body_jntadr (a.body_branches i)] (WVal.v (V3.toList (V3.add (rotVecQuat j.pos F.quat) F.pos))) WKind.set : Write ℝ),
+        (Write.mk "xaxis_out" [w, a.body_jntadr (a.body_branches i)] (WVal.v (V3.toList xaxis)) WKind.set : Write ℝ),
+        (Write.mk "xpos_out" [w, a.body_branches i] (WVal.v (V3.toList (V3.add F.pos (V3.muls xaxis
+            (a.qpos_in w j.qadr - a.qpos0 (Int.tmod w a.qpos0_shape0) j.qadr))))) WKind.set : Write ℝ),
+        (Write.mk "xquat_out" [w, a.body_branches i] (WVal.v (Q.toList (normalize4 F.quat))) WKind.set : Write ℝ)]) := by
+  refine ⟨kernelLoop a w br, ?_⟩
+  rw [(kinematics_body_step_eq_spec a w br i ws parent hpar hP hb).2, isFree_single a w _ j hj, hj, kinBody_slide _ _ _ _ _ ht]
+  simp [bodyWrites, jntWrites, jntWrite, poseWrites, ht]
+
+include hpar hP hb hj in
 /-- BALL: rotate by the normalised quaternion in qpos about the anchor -/
-theorem kinBody_ball (parent : Option (Pose K)) (bp : BodyParams K) (j : Joint K) (qpos qpos0 : Int → K)
-    (h : j.type = 1) :
-    kinBody parent bp [j] qpos qpos0
-      = (let F := bodyFrame parent bp
-         let xanchor := V3.add (rotVecQuat j.pos F.quat) F.pos
-         let q := mulQuat F.quat (normalize4 (qposQuat qpos j.qadr))
-         ⟨⟨V3.sub xanchor (rotVecQuat j.pos q), normalize4 q⟩, [(xanchor, rotVecQuat j.axis F.quat)]⟩) := by
-  simp [kinBody, regularBody, jointsFold, jointApply, jFREE, jSLIDE, jBALL, jHINGE, h]
+theorem kinematics_step_ball (ht : j.type = 1) :
+    KernelLoop a w br (bodyStepG a w)
+    ∧ bodyStepG a w i ws = ws ++
+      (let F := bodyFrame parent (bpAt a w (a.body_branches i))
+       let xanchor := V3.add (rotVecQuat j.pos F.quat) F.pos
+       let q := mulQuat F.quat (normalize4 (qposQuat (a.qpos_in w) j.qadr))
+       [(Write.mk "xanchor_out" [w, a.body_jntadr (a.body_branches i)] (WVal.v (V3.toList xanchor)) WKind.set : Write ℝ),
+        (Write.mk "xaxis_out" [w, a.body_jntadr (a.body_branches i)] (WVal.v (V3.toList (rotVecQuat j.axis F.quat))) WKind.set : Write ℝ),
+        (Write.mk "xpos_out" [w, a.body_branches i] (WVal.v (V3.toList (V3.sub xanchor (rotVecQuat j.pos q)))) WKind.set : Write ℝ),
+        (Write.mk "xquat_out" [w, a.body_branches i] (WVal.v (Q.toList (normalize4 q))) WKind.set : Write ℝ)]) := by
+  refine ⟨kernelLoop a w br, ?_⟩
+  rw [(kinematics_body_step_eq_spec a w br i ws parent hpar hP hb).2, isFree_single a w _ j hj, hj, kinBody_ball _ _ _ _ _ ht]
+  simp [bodyWrites, jntWrites, jntWrite, poseWrites, ht]
 
-/-- several joints per body = fold of `jointApply` over the body's joints, in order -/
-theorem kinBody_joints (parent : Option (Pose K)) (bp : BodyParams K) (j1 j2 : Joint K) (js : List (Joint K))
-    (qpos qpos0 : Int → K) :
-    kinBody parent bp (j1 :: j2 :: js) qpos qpos0
-      = (let r := jointsFold qpos qpos0 (j1 :: j2 :: js) (bodyFrame parent bp)
-         ⟨⟨r.1.pos, normalize4 r.1.quat⟩, r.2⟩) := rfl
+include hpar hP hb hj in
+/-- FREE (the kernel's shortcut: pose first, then anchor/axis): position and normalised quaternion straight from
+    qpos, independent of the parent; anchor = position, axis = `jnt_axis` unrotated -/
+theorem kinematics_step_free (ht : j.type = 0) :
+    KernelLoop a w br (bodyStepG a w)
+    ∧ bodyStepG a w i ws = ws ++
+      (let xpos : V3 ℝ := ⟨a.qpos_in w j.qadr, a.qpos_in w (j.qadr + 1), a.qpos_in w (j.qadr + 2)⟩
+       [(Write.mk "xpos_out" [w, a.body_branches i] (WVal.v (V3.toList xpos)) WKind.set : Write ℝ),
+        (Write.mk "xquat_out" [w, a.body_branches i]
+          (WVal.v (Q.toList (normalize4 (normalize4 (qposQuat (a.qpos_in w) (j.qadr + 3)))))) WKind.set : Write ℝ),
+        (Write.mk "xanchor_out" [w, a.body_jntadr (a.body_branches i)] (WVal.v (V3.toList xpos)) WKind.set : Write ℝ),
+        (Write.mk "xaxis_out" [w, a.body_jntadr (a.body_branches i)] (WVal.v (V3.toList j.axis)) WKind.set : Write ℝ)]) := by
+  refine ⟨kernelLoop a w br, ?_⟩
+  rw [(kinematics_body_step_eq_spec a w br i ws parent hpar hP hb).2, isFree_single a w _ j hj, hj, kinBody_free _ _ _ _ _ ht]
+  simp [bodyWrites, jntWrites, jntWrite, poseWrites, ht]
 
-end closed_forms
+end per_joint
 
 /-! ## 2. the whole chain -/
 
@@ -117,14 +165,6 @@ end closed_forms
 theorem kinematics_branch_closed_form {K : Type} [Scalar K] (a : KinArgs K) (w br : Int) (hl : Linked a br) :
     kin a w br = chainWrites a w br (chainLen a br) :=
   kin_eq_chainWrites a w br hl
-
-/-- the thread reads the stored world pose (0, identity) for the parent of the chain root -/
-theorem parentOf_root (a : KinArgs ℝ) (w br : Int) (h : WF a br) (hlen : 0 < chainLen a br)
-    (hwp : a.xpos_out w 0 = ⟨0, 0, 0⟩) (hwq : a.xquat_out w 0 = ⟨1, 0, 0, 0⟩) :
-    parentOf a w [] (chainBody a br 0) = some worldPose := by
-  unfold parentOf
-  rw [h.root hlen, if_pos (le_refl _)]
-  simp only [Write.lookupV, List.foldl_nil, hwp, hwq, V3_ofList_toList, Q_ofList_toList, worldPose]
 
 /-- (2) **`kinematics_branch_eq_seq`**: for a well-formed chain `c 0 = root, …, c (n-1)` (each the parent of the
     next, the root a child of the world) the LAST write of the thread to `xpos_out[w, c i]` / `xquat_out[w, c i]` is
@@ -192,6 +232,53 @@ theorem shared_ancestors_same_value {K : Type} [Scalar K] (a : KinArgs K) (w1 w2
   · have hh : w1 = w2 ∧ chainBody a br1 k1 = chainBody a br2 k2 := by simpa using hidx
     rw [same hh.1 hh.2, hh.1, hh.2]
 
+/-- the same for the joint cells: two branch threads that write the same cell of `xanchor_out` / `xaxis_out`
+    (the joints of a shared ancestor) write the same value, provided joint address ranges of different bodies do not
+    overlap (`JntDisjoint`, a compiled-model invariant).  Every scalar type, all inputs. -/
+theorem shared_ancestors_same_value_joints {K : Type} [Scalar K] (a : KinArgs K) (w1 w2 br1 br2 : Int)
+    (h1 : WF a br1) (h2 : WF a br2) (hdis : JntDisjoint a) (x y : Write K) (hx : x ∈ kin a w1 br1)
+    (hy : y ∈ kin a w2 br2) (harr : x.arr = y.arr) (hj : x.arr = "xanchor_out" ∨ x.arr = "xaxis_out")
+    (hidx : x.idx = y.idx) : x = y := by
+  rw [kin_eq_chainWrites a w1 br1 h1.linked] at hx
+  rw [kin_eq_chainWrites a w2 br2 h2.linked] at hy
+  obtain ⟨k1, hk1, r1, hr1, hx1⟩ := chainWrites_jnt a w1 br1 _ x hx hj
+  obtain ⟨k2, hk2, r2, hr2, hy2⟩ := chainWrites_jnt a w2 br2 _ y hy (harr ▸ hj)
+  have getElem_eq : ∀ (o1 o2 : BodyOut K) (e : o1 = o2) (s1 s2 : Nat) (es : s1 = s2) (g1 : s1 < o1.jnt.length)
+      (g2 : s2 < o2.jnt.length), o1.jnt[s1] = o2.jnt[s2] := by
+    intro o1 o2 e s1 s2 es g1 g2; subst e; subst es; rfl
+  -- equal cells ⇒ same world, same body, same joint number, same chain prefix ⇒ same result
+  have same : ∀ (hw : w1 = w2)
+      (hc : a.body_jntadr (chainBody a br1 k1) + (r1 : Int) = a.body_jntadr (chainBody a br2 k2) + (r2 : Int)),
+      chainBody a br1 k1 = chainBody a br2 k2 ∧ r1 = r2 ∧ (chainOut a w1 br1 k1).jnt[r1] = (chainOut a w2 br2 k2).jnt[r2] := by
+    intro hw hc
+    subst hw
+    have hb : chainBody a br1 k1 = chainBody a br2 k2 :=
+      hdis _ _ r1 r2 (by rw [← chainOut_jnt_length a w1]; exact hr1) (by rw [← chainOut_jnt_length a w1]; exact hr2) hc
+    have hr : r1 = r2 := by rw [hb] at hc; omega
+    obtain ⟨hk, hpre⟩ := chain_prefix a br1 br2 h1 h2 k1 k2 hk1 hk2 hb
+    subst hk
+    exact ⟨hb, hr, getElem_eq _ _ (chainOut_congr a w1 br1 br2 k1 hpre) _ _ hr _ _⟩
+  rcases hx1 with rfl | rfl <;> rcases hy2 with rfl | rfl
+  · have hh : w1 = w2 ∧ a.body_jntadr (chainBody a br1 k1) + (r1 : Int) = a.body_jntadr (chainBody a br2 k2) + (r2 : Int) := by
+      simpa using hidx
+    obtain ⟨hb, hr, hv⟩ := same hh.1 hh.2
+    rw [hv, hh.1, hh.2]
+  · exact absurd (show ("xanchor_out" : String) = "xaxis_out" from harr) (by decide)
+  · exact absurd (show ("xaxis_out" : String) = "xanchor_out" from harr) (by decide)
+  · have hh : w1 = w2 ∧ a.body_jntadr (chainBody a br1 k1) + (r1 : Int) = a.body_jntadr (chainBody a br2 k2) + (r2 : Int) := by
+      simpa using hidx
+    obtain ⟨hb, hr, hv⟩ := same hh.1 hh.2
+    rw [hv, hh.1, hh.2]
+
+/-- no thread writes the pose of the world body: `xpos[w, 0]`, `xquat[w, 0]` keep what `make_data` stored — the value
+    the roots compose with (hypotheses `hwp`, `hwq` of `kinematics_branch_eq_seq`); MuJoCo re-sets it on every call -/
+theorem world_pose_not_written {K : Type} [Scalar K] (a : KinArgs K) (w br : Int) (h : WF a br) (x : Write K)
+    (hx : x ∈ kin a w br) (ha : x.arr = "xpos_out" ∨ x.arr = "xquat_out") (w' : Int) : x.idx ≠ [w', 0] := by
+  rw [kin_eq_chainWrites a w br h.linked] at hx
+  obtain ⟨k, hk, hxk⟩ := chainWrites_pose a w br _ x hx ha
+  have hpos := h.pos k hk
+  rcases hxk with rfl | rfl <;> simp <;> omega
+
 /-! ## 3. unit quaternions, proper rotations -/
 
 /-- (3) **every `xquat_out` value the kernel writes is a unit quaternion** — all inputs (zero / non-unit
@@ -200,7 +287,7 @@ theorem xquat_unit (a : KinArgs ℝ) (w br : Int) (x : Write ℝ) (hx : x ∈ ki
     ∃ q : Q ℝ, x.val = WVal.v (Q.toList q) ∧ x.kind = WKind.set ∧ nrm2 q = 1 := by
   rw [kinematics_branch_unfold] at hx
   revert x
-  apply Mjw.Lemmas.C16.forRange_inv
+  apply Mjw.Lemmas.C01.forRange_inv
     (fun ws : List (Write ℝ) => ∀ x ∈ ws, x.arr = "xquat_out" →
       ∃ q : Q ℝ, x.val = WVal.v (Q.toList q) ∧ x.kind = WKind.set ∧ nrm2 q = 1)
   · intro x hx; cases hx
@@ -280,6 +367,17 @@ theorem local_frame_eq_spec (xpos : V3 ℝ) (xquat : Q ℝ) (pos : V3 ℝ) (quat
   rw [mat_mulVec_eq, quat2Mat_eq, mulQuat_eq]
   congr 1
   apply V3.ext' <;> simp only [V3.add, hadd] <;> ring
+
+/-- `xipos`, `ximat` are MuJoCo's `mj_local2Global(xpos[b], xquat[b], body_ipos[b], body_iquat[b])` -/
+theorem inertial_frames_spec (body_ipos : Int → Int → V3 ℝ) (body_iquat : Int → Int → Q ℝ)
+    (xpos_in : Int → Int → V3 ℝ) (xquat_in : Int → Int → Q ℝ) (xipos_out : Int → Int → V3 ℝ)
+    (ximat_out : Int → Int → M33 ℝ) (sp sq w b : Int) :
+    Gen.Smooth._compute_body_inertial_frames body_ipos body_iquat xpos_in xquat_in xipos_out ximat_out sp sq w b
+      = (let r := local2Global ⟨xpos_in w b, xquat_in w b⟩ (body_ipos (Int.tmod w sp) b) (body_iquat (Int.tmod w sq) b)
+         [(Write.mk "xipos_out" [w, b] (WVal.v (V3.toList r.1)) WKind.set : Write ℝ),
+          (Write.mk "ximat_out" [w, b] (WVal.v (M33.toList r.2)) WKind.set : Write ℝ)]) := by
+  rw [compute_body_inertial_frames_writes]
+  simp only [← local_frame_eq_spec]
 
 /-- (4) **`geom_site_local_to_global_spec`**: a non-static geom and every site get exactly MuJoCo's
     `mj_local2Global(xpos[body], xquat[body], pos, quat)`; a static geom gets no write. -/
@@ -373,19 +471,6 @@ theorem subtree_div_eq_spec (body_subtreemass : Int → Int → ℝ) (subtree_co
   apply V3.ext' <;> simp only [V3.divs, V3.muls, hdiv, hmul, slit] <;> field_simp <;> norm_num
 
 /-! ### level-by-level accumulation = MuJoCo's sequential backward pass -/
-
-open Mjw.Lemmas.C01Tree in
-/-- `Spec.comBackward` (`for i = n-1 … 1: com[parent i] += com[i]`) is the abstract `seqAcc` at `V3.add` -/
-theorem comBackward_eq_seqAcc {K : Type} [Scalar K] (p : Nat → Nat) : ∀ (n : Nat) (c : Nat → V3 K),
-    comBackward p n c = seqAcc V3.add p n c
-  | 0, _ => rfl
-  | 1, _ => rfl
-  | n + 2, c => by rw [comBackward, seqAcc]; exact comBackward_eq_seqAcc p (n + 1) _
-
-theorem v3_add_comm (a b : V3 ℝ) : V3.add a b = V3.add b a := by
-  apply V3.ext' <;> simp only [V3.add, hadd] <;> ring
-theorem v3_add_assoc (a b c : V3 ℝ) : V3.add (V3.add a b) c = V3.add a (V3.add b c) := by
-  apply V3.ext' <;> simp only [V3.add, hadd] <;> ring
 
 open Mjw.Lemmas.C01Tree in
 /-- (5) **`subtree_com_level_eq_seq`**: on a tree given by `p i < i` (0 < i < n) with depths `d`, the host loop of
@@ -528,82 +613,11 @@ theorem cinert_cdof_spec (body_rootid jnt_type jnt_dofadr jnt_bodyid : Int → I
 
 /-! ## non-vacuity: a concrete two-body chain (free-floating body 1 with a hinged child 2) meets every hypothesis -/
 
-/-- world 0 + body 1 (FREE joint 0, qpos 0..6) + body 2 = child of 1 (HINGE joint 1 about z, qpos 7);
-    one branch `[1, 2]`; qpos = (0,0,0, 1,0,0,0, 0) -/
-noncomputable def exArgs : KinArgs ℝ where
-  qpos0 := fun _ _ => 0
-  body_parentid := fun b => b - 1
-  body_mocapid := fun _ => -1
-  body_jntnum := fun _ => 1
-  body_jntadr := fun b => b - 1
-  body_pos := fun _ _ => ⟨1, 0, 0⟩
-  body_quat := fun _ _ => ⟨1, 0, 0, 0⟩
-  jnt_type := fun j => if j = 0 then 0 else 3
-  jnt_qposadr := fun j => if j = 0 then 0 else 7
-  jnt_pos := fun _ _ => ⟨0, 0, 0⟩
-  jnt_axis := fun _ _ => ⟨0, 0, 1⟩
-  body_branches := fun i => i + 1
-  body_branch_start := fun b => if b = 0 then 0 else 2
-  qpos_in := fun _ i => if i = 3 then 1 else 0
-  mocap_pos_in := fun _ _ => ⟨0, 0, 0⟩
-  mocap_quat_in := fun _ _ => ⟨1, 0, 0, 0⟩
-  xpos_out := fun _ _ => ⟨0, 0, 0⟩
-  xquat_out := fun _ _ => ⟨1, 0, 0, 0⟩
-  xanchor_out := fun _ _ => ⟨0, 0, 0⟩
-  xaxis_out := fun _ _ => ⟨0, 0, 0⟩
-  jnt_axis_shape0 := 1
-  jnt_pos_shape0 := 1
-  body_pos_shape0 := 1
-  body_quat_shape0 := 1
-  qpos0_shape0 := 1
-
-theorem exArgs_chainLen : chainLen exArgs 0 = 2 := by simp [chainLen, exArgs]
-theorem exArgs_chainBody (k : Nat) : chainBody exArgs 0 k = (k : Int) + 1 := by simp [chainBody, exArgs]
-
-/-- the example chain is well formed (`WF`, hence `Linked`) -/
-theorem exArgs_wf : WF exArgs 0 where
-  linked := by
-    intro k hk
-    rw [exArgs_chainLen] at hk
-    have : k = 0 := by omega
-    subst this
-    simp [exArgs_chainBody, exArgs]
-  root := by intro _; simp [exArgs_chainBody, exArgs]
-  pos := by intro k _; rw [exArgs_chainBody]; omega
-
-/-- every body of the example chain satisfies `BodyOK` -/
-theorem exArgs_bodyOK (k : Nat) (hk : k < chainLen exArgs 0) :
-    BodyOK (bpAt exArgs 0 (chainBody exArgs 0 k)) (jointsOf exArgs 0 (chainBody exArgs 0 k)) (exArgs.qpos_in 0) := by
-  rw [exArgs_chainLen] at hk
-  have hunit : nrm2 (⟨1, 0, 0, 0⟩ : Q ℝ) = 1 := by norm_num [nrm2]
-  rcases (by omega : k = 0 ∨ k = 1) with rfl | rfl
-  · have hj : jointsOf exArgs 0 (chainBody exArgs 0 0) = [⟨0, 0, ⟨0, 0, 0⟩, ⟨0, 0, 1⟩⟩] := by
-      simp [jointsOf, jointList, jointAt, exArgs_chainBody, exArgs]
-    rw [hj]
-    refine ⟨?_, ?_, ?_⟩
-    · simpa [selQuat, bpAt, exArgs] using hunit
-    · intro j hj'
-      simp only [List.mem_singleton] at hj'
-      subst hj'
-      exact ⟨fun h => by simp at h, fun h => by simp at h⟩
-    · intro j hj' _
-      have : j = ⟨0, 0, ⟨0, 0, 0⟩, ⟨0, 0, 1⟩⟩ := by simpa using hj'.symm
-      subst this
-      apply regular_of_unit
-      simp [qposQuat, exArgs, nrm2]
-  · have hj : jointsOf exArgs 0 (chainBody exArgs 0 1) = [⟨3, 7, ⟨0, 0, 0⟩, ⟨0, 0, 1⟩⟩] := by
-      simp [jointsOf, jointList, jointAt, exArgs_chainBody, exArgs]
-    rw [hj]
-    refine ⟨?_, ?_, ?_⟩
-    · simpa [selQuat, bpAt, exArgs] using hunit
-    · intro j hj'
-      simp only [List.mem_singleton] at hj'
-      subst hj'
-      exact ⟨fun _ => by norm_num [vnrm2], fun h => by simp at h⟩
-    · intro j hj' h0
-      have : j = ⟨3, 7, ⟨0, 0, 0⟩, ⟨0, 0, 1⟩⟩ := by simpa using hj'.symm
-      subst this
-      simp at h0
+/-- the example's joint ranges are disjoint (`JntDisjoint`, hypothesis of `shared_ancestors_same_value_joints`) -/
+example : JntDisjoint exArgs := by
+  intro b1 b2 r1 r2 h1 h2 h
+  simp [exArgs] at h1 h2 h
+  omega
 
 /-- `kinematics_branch_eq_seq` applies to the example (both bodies) -/
 example (i : Nat) (hi : i < chainLen exArgs 0) :
